@@ -86,7 +86,7 @@ func judgeTx(r *core.Run, traces []*core.Trace, o reportOpts) {
 func exploreTx(r *core.Run) func() {
 	cfgs := []string{"MC_TxFile_s.cfg"}
 	if r.Thorough() {
-		cfgs = []string{"MC_TxFile_q.cfg", "MC_TxFile_meta.cfg", "MC_TxFile_full.cfg", "MC_TxFile_agree.cfg"}
+		cfgs = []string{"MC_TxFile_q.cfg", "MC_TxFile_meta.cfg", "MC_TxFile_full.cfg", "MC_TxFile_ovf.cfg", "MC_TxFile_agree.cfg"}
 	}
 	var wg sync.WaitGroup
 	wg.Add(1)
